@@ -232,7 +232,10 @@ func (g *G) sniffBytes() ([]byte, string) {
 			lines = append(lines, g.Pick([]string{"# comment", "", "DataLicense: CC0-1.0", "PackageName: x", "Text: 'SPDX-2.1'", "  "}))
 		}
 		lines = append(lines, g.Pick([]string{"SPDXVersion: SPDX-2.3", "SPDXVersion: SPDX-2.2", "SPDXVersion: SPDX-2.1", "SPDXVersion:", "SPDXVersion: SPDX-2.30",
-			"SPDXVersion: spdx-2.3", "xSPDXVersion: SPDX-2.2", "SPDXVersion SPDX-2.3", "SPDXVersion:SPDX-2.2SPDX-2.3", "spdxversion: SPDX-2.3"}))
+			"SPDXVersion: spdx-2.3", "xSPDXVersion: SPDX-2.2", "SPDXVersion SPDX-2.3", "SPDXVersion:SPDX-2.2SPDX-2.3", "spdxversion: SPDX-2.3",
+			// values cut short at every position of the version text
+			"SPDXVersion: ", "SPDXVersion: S", "SPDXVersion: SPDX", "SPDXVersion: SPDX-", "SPDXVersion: SPDX-2", "SPDXVersion: SPDX-2.", "SPDXVersion: 2.3",
+			"# SPDXVersion: ?", "SPDXVersion:\tSPDX-2.3", "SPDXVersion: SPDX-3"}))
 		for i := 0; i < g.Int(4); i++ {
 			lines = append(lines, g.Pick([]string{"Comment: \"SPDX-2.3\"", "Comment: 'SPDX-2.2'", "SPDX-2.3", "DocumentName: y", "Comment: \"SPDX-2.1\"", "SPDXVersion: SPDX-2.2"}))
 		}
